@@ -135,8 +135,10 @@ def affine_laws(t, devs):
     o0 = ap(m[0], (0, 0))
     if U.apply_matrix_norm(m[0], p) != (a0[0] - o0[0], a0[1] - o0[1]):
         bad.append("norm")
-    xs = sorted([frac(t), frac(t)])
-    ys = sorted([frac(t), frac(t)])
+    xs = [frac(t), frac(t)]
+    ys = [frac(t), frac(t)]
+    if t.coin(70, 100, "rect.sorted"):
+        xs, ys = sorted(xs), sorted(ys)  # otherwise the rectangle is given by its other corners: the hull is the same
     r = (xs[0], ys[0], xs[1], ys[1])
     cs = [ap(m[0], c) for c in ((r[0], r[1]), (r[2], r[1]), (r[2], r[3]), (r[0], r[3]))]
     hull = (min(c[0] for c in cs), min(c[1] for c in cs), max(c[0] for c in cs), max(c[1] for c in cs))
